@@ -180,8 +180,57 @@ def genC18 (tier : Tier) (seed : Nat) (o : Out) : IO Unit := do
     let gens := [mkGen 0 b0, mkGen 1 b1, mkGen 2 b2].take (n + 1)
     emit (c18Scenario ("random/" ++ so.1) gens so.2)
 
+/-! ### C11, compiler half: a malformed generator reply becomes a diagnostic (stream `proc C11 replies`) -/
+
+/-- a size written on 1, 2, 4 or 8 bytes -/
+def sizeOn (bytes v : Nat) : Bytes :=
+  let tag := match bytes with | 1 => 0 | 2 => 1 | 4 => 2 | _ => 3
+  let w := v * 4 + tag
+  (List.range bytes).map fun k => (w / 256 ^ k % 256).toUInt8
+
+/-- sizes an input can merely announce -/
+def announced : List (String × Bytes) :=
+  [("63", sizeOn 1 63), ("2^13", sizeOn 2 8192), ("2^14-1", sizeOn 2 16383), ("2^20", sizeOn 4 (2 ^ 20)), ("2^26", sizeOn 4 (2 ^ 26)),
+   ("2^30-1", sizeOn 4 (2 ^ 30 - 1)), ("2^32", sizeOn 8 (2 ^ 32)), ("2^40", sizeOn 8 (2 ^ 40)), ("2^57", sizeOn 8 (2 ^ 57)),
+   ("2^61", sizeOn 8 (2 ^ 61)), ("2^62-1", sizeOn 8 (2 ^ 62 - 1))]
+
+/-- malformed replies: every position where the reply format announces a size (number of files, length of a path, length of the
+    contents, number of diagnostics, length of a message / source, size of a skipped tagged field) announcing far more than there
+    is; tags outside the 32-bit range; invalid UTF-8; an enumerator out of range -/
+def malformedReplies : List (String × Bytes) :=
+  let f := encGenFile (fileA 0) |>.getD []
+  let path := str (b "out.txt")
+  let body := str (b "hello")
+  announced.flatMap (fun (n, sz) =>
+    [("files=" ++ n, sz ++ f ++ [0]), ("files-only=" ++ n, sz), ("path-len=" ++ n, [4] ++ sz ++ b "out.txt" ++ body ++ tagEnd ++ [0]),
+     ("contents-len=" ++ n, [4] ++ path ++ sz ++ b "hello" ++ tagEnd ++ [0]),
+     ("diags=" ++ n, filesPart [fileA 0] ++ sz ++ [0, 1] ++ str (b "m") ++ tagEnd),
+     ("message-len=" ++ n, filesPart [fileA 0] ++ [4] ++ [0, 1] ++ sz ++ b "m" ++ tagEnd),
+     ("tagged-size=" ++ n, [4] ++ path ++ body ++ [4] ++ sz ++ [1, 2, 3] ++ tagEnd ++ [0])]) ++
+  [("tag=2^31", [4] ++ path ++ body ++ [0x03, 0, 0, 0, 0x02, 0, 0, 0] ++ [0] ++ tagEnd ++ [0]),
+   ("tag=-2^31-1", [4] ++ path ++ body ++ [0xFF, 0xFF, 0xFF, 0xFF, 0xFD, 0xFF, 0xFF, 0xFF] ++ [0] ++ tagEnd ++ [0]),
+   ("tag=2^61-1", [4] ++ path ++ body ++ [0xFF, 0xFF, 0xFF, 0xFF, 0xFF, 0xFF, 0xFF, 0x7F] ++ [0] ++ tagEnd ++ [0]),
+   ("no-tag-end", [4] ++ path ++ body ++ [4, 0]),
+   ("utf8-path", badUtf8Path 0), ("utf8-message", badUtf8Message 0), ("bool=2", badBool 0), ("level=3", badLevel 0),
+   ("overlong-utf8", [4] ++ str [0xC0, 0xAF] ++ body ++ tagEnd ++ [0]), ("surrogate", [4] ++ str [0xED, 0xA0, 0x80] ++ body ++ tagEnd ++ [0]),
+   ("empty", []), ("one-zero", [0]), ("only-ff", [0xFF]), ("ff×8", List.replicate 8 0xFF), ("ff×9", List.replicate 9 0xFF)]
+
+/-- one clean file; the malformed generator alone, in front of and behind a well-behaved one: the model (`mainFlow` with C11's
+    `decReply`) says: an error naming that generator, the other one honoured, exit status 1 — never a crash -/
+def genC11p (_tier : Tier) (_seed : Nat) (o : Out) : IO Unit := do
+  let out : OutSpec := ⟨"d", "out", []⟩
+  for (n, r) in malformedReplies do
+    let bad : String × BehSpec := ("bad", .x 0 [] r)
+    o.line (c18Scenario ("reply/" ++ n) [mkGen 0 bad] out).line
+    o.line (c18Scenario ("reply+good/" ++ n) [mkGen 0 bad, mkGen 1 ("ok1", okBeh [fileA 1])] out).line
+    o.line (c18Scenario ("good+reply/" ++ n) [mkGen 1 ("ok1", okBeh [fileA 1]), mkGen 0 bad] out).line
+
 end Slicec.Drv.Proc
 
 /-- entry point registered in `Main.lean` -/
 def Slicec.Drv.genC18 (tier : Slicec.Drv.Tier) (seed : Nat) (o : Slicec.Drv.Out) : IO Unit :=
   Slicec.Drv.Proc.genC18 tier seed o
+
+/-- entry point registered in `Main.lean` (stream `proc C11p` of C11) -/
+def Slicec.Drv.genC11p (tier : Slicec.Drv.Tier) (seed : Nat) (o : Slicec.Drv.Out) : IO Unit :=
+  Slicec.Drv.Proc.genC11p tier seed o
